@@ -137,7 +137,11 @@ PROPS = {
                      "Arca.Props.C02.provide_sees_produced_values", "Arca.Props.C02.data_model_holds_resolved_outputs",
                      "Arca.Model.Graph.ready_sound", "Arca.Model.Graph.inv_resolve"],
         "pins": RUNLOOP_PINS + RESOLVE_PINS + PREPARE_PINS,
-        "streams": [S_loop(), S_engine(M.mon_c02_engine, n=(250, 2500))],
+        "streams": [S_loop(), S_engine(M.both(M.mon_c02_engine, M.no_eval_failure("C02", "a stage input was evaluated before the data it refers to was produced")), n=(250, 2500)),
+                    # single expressions with several step references (one of them already connected by another expression of
+                    # the same stage), optional members with several sources
+                    S_engine(M.both(M.mon_c02_engine, M.no_eval_failure("C02", "a stage input was evaluated before the data it refers to was produced")),
+                             extra=["-tags", "-multiref"], name="engine-multiref", n=(150, 1500), seed_off=41)],
         "rule": LOOP_RULE + " - every provided stage input is compared with the model; " + ENGINE_RULE +
                 " - every plugin execution's input is recomputed from the logged producer outputs",
     },
@@ -148,7 +152,8 @@ PROPS = {
         "pins": RUNLOOP_PINS + RESOLVE_PINS,
         "streams": [S_loop(), S_engine(M.mon_c03_engine, n=(250, 2500), seed_off=7),
                     # runs cancelled by the caller: "if no declared output is producible the run returns an error and no output"
-                    S_engine(M.result_shape("C03"), extra=["-cancel", "random"], name="engine-cancel", n=(60, 600), seed_off=29)],
+                    S_engine(M.result_shape("C03"), extra=["-cancel", "random"], name="engine-cancel", n=(60, 600), seed_off=29),
+                    S_engine(M.mon_c03_engine, extra=["-tags", "-multiref"], name="engine-multiref", n=(150, 1500), seed_off=43)],
         "rule": LOOP_RULE + " - the returned output must be one the model admits; " + ENGINE_RULE +
                 " - the returned output is recomputed declaratively from the logged step outcomes",
     },
@@ -236,7 +241,11 @@ PROPS = {
                                 "workflow_executor_executor_prepareOneOfExprDependencies", "workflow_executor_executor_createGroupNode",
                                 "workflow_yaml__buildOneOfExpressions", "workflow_yaml__buildResultOrDisabledExpression",
                                 "workflow_yaml__buildOptionalExpression", "workflow_yaml__yamlBuildExpressions"],
-        "streams": [S_loop(), S_engine(M.mon_c15_engine, n=(250, 2500), seed_off=31, extra=["-tags"])],
+        "streams": [S_loop(), S_engine(M.both(M.mon_c15_engine, M.no_eval_failure("C15", "a tagged member was evaluated although its source was not produced")),
+                                       n=(250, 2500), seed_off=31, extra=["-tags"]),
+                    # optional members with several sources; a !wait-optional and a !soft-optional member on ONE source
+                    S_engine(M.both(M.mon_c15_engine, M.no_eval_failure("C15", "a tagged member was evaluated although its source was not produced")),
+                             extra=["-tags", "-multiref"], name="engine-multiref", n=(200, 2000), seed_off=47)],
         "rule": LOOP_RULE + " over workflows whose inputs and outputs use !wait-optional / !soft-optional / !oneof / !ordisabled; "
                 + ENGINE_RULE + " - every plugin input and the returned output are recomputed with the declarative meaning of the tags",
     },
